@@ -56,7 +56,7 @@ mutual
 def jsonToC : Json → CVal
   | .null => .null
   | .bool b => .bool b
-  | .num d => if d.s == 0 then .int d.m else .dec d
+  | .num d => .dec d
   | .str s => .str s
   | .arr xs => .list (jsonListToC xs)
   | .obj kvs => .map (jsonKvsToC kvs)
@@ -134,11 +134,11 @@ end
 
 /-- ordering comparison for `< <= > >=`: `none` when incomparable or null -/
 def cCmp : CVal → CVal → Option Ordering
-  | .int a, .int b => some (compare a b)
+  | .int a, .int b => some (intCmp a b)
   | .int a, .dec b => some (Dec.cmp (Dec.ofInt a) b)
   | .dec a, .int b => some (Dec.cmp a (Dec.ofInt b))
   | .dec a, .dec b => some (Dec.cmp a b)
-  | .str a, .str b => some (compare a b)
+  | .str a, .str b => some (strCmp a b)
   | .bool a, .bool b => some (compare a.toNat b.toNat)
   | _, _ => none
 
@@ -251,6 +251,42 @@ def hopsFrom (g : Graph) (dir : Dir) (from_ : Int) : List (EdgeRec × Int) :=
 def kindsAllOf (have_ want : List String) : Bool := want.all (fun k => have_.contains k)
 def kindAnyOf (k : String) (want : List String) : Bool := want.isEmpty || want.contains k
 
+def isPropExpr : Expr → Bool
+  | .prop _ _ => true
+  | _ => false
+
+def isVarExpr : Expr → Bool
+  | .var _ => true
+  | _ => false
+
+/-- comparison / membership / string / null-test operators on evaluated operands (`lp rp lv rv`: is the left / right operand syntactically
+a property lookup / a variable — only the deviation switches look at that) -/
+def cmpOp (qk : Quirks) (underNot : Bool) (op : String) (lp rp lv rv : Bool) (a b : CVal) : M CVal :=
+  match op with
+  | "in" =>
+    match b with
+    | .null => pure .null
+    | .list ys =>
+      let textual := qk.inListTextCompare && lp && ys.all (fun y => match y with | .str _ => true | _ => false)
+      let a' := if textual then scalarAsText a else a
+      pure (triToC (match a' with | .null => (if ys.isEmpty then some false else none) | _ => cIn a' ys))
+    | _ => .error "in-non-list"
+  | "starts with" | "ends with" | "contains" => do
+    let fill (isProp : Bool) (v : CVal) : CVal :=
+      let v := if qk.stringPredicateOnTextForm && isProp then scalarAsText v else v
+      if qk.negStringNullIsEmpty && underNot && isProp then (match v with | .null => .str "" | x => x) else v
+    let t ← strOp op (fill lp a) (fill rp b)
+    pure (triToC t)
+  | "is" => match b with
+    | .null => pure (.bool (match a with | .null => true | _ => false))
+    | _ => .error "is-non-null"
+  | "is not" => match b with
+    | .null => pure (.bool (match a with | .null => false | _ => true))
+    | _ => .error "is-not-non-null"
+  | _ =>
+    let textual := qk.propEqualsVariableOnTextForm && (op == "=" || op == "<>") && ((lp && rv) || (lv && rp))
+    do let t ← (if textual then cRel op (scalarAsText a) (scalarAsText b) else cRel op a b); pure (triToC t)
+
 /-- non-aggregate functions -/
 def evalFn (g : Graph) (name : String) (args : List CVal) : M CVal :=
   match name, args with
@@ -310,33 +346,7 @@ def evalExpr (qk : Quirks) (g : Graph) (env : Env) (underNot : Bool) : Expr → 
   | .cmp op l r => do
     let a ← evalExpr qk g env false l
     let b ← evalExpr qk g env false r
-    match op with
-    | "in" =>
-      match b with
-      | .null => pure .null
-      | .list ys =>
-        let textual := qk.inListTextCompare && (match l with | .prop _ _ => true | _ => false) &&
-          ys.all (fun y => match y with | .str _ => true | _ => false)
-        let a' := if textual then scalarAsText a else a
-        pure (triToC (match a' with | .null => (if ys.isEmpty then some false else none) | _ => cIn a' ys))
-      | _ => .error "in-non-list"
-    | "starts with" | "ends with" | "contains" => do
-      let fill (e : Expr) (v : CVal) : CVal :=
-        let isProp := match e with | .prop _ _ => true | _ => false
-        let v := if qk.stringPredicateOnTextForm && isProp then scalarAsText v else v
-        if qk.negStringNullIsEmpty && underNot && isProp then (match v with | .null => .str "" | x => x) else v
-      let t ← strOp op (fill l a) (fill r b)
-      pure (triToC t)
-    | "is" => match b with
-      | .null => pure (.bool (match a with | .null => true | _ => false))
-      | _ => .error "is-non-null"
-    | "is not" => match b with
-      | .null => pure (.bool (match a with | .null => false | _ => true))
-      | _ => .error "is-not-non-null"
-    | _ =>
-      let textual := qk.propEqualsVariableOnTextForm && (op == "=" || op == "<>") &&
-        (match l, r with | .prop _ _, .var _ => true | .var _, .prop _ _ => true | _, _ => false)
-      do let t ← (if textual then cRel op (scalarAsText a) (scalarAsText b) else cRel op a b); pure (triToC t)
+    cmpOp qk underNot op (isPropExpr l) (isPropExpr r) (isVarExpr l) (isVarExpr r) a b
   | .conj es => do let t ← evalConj qk g env es; pure (triToC t)
   | .disj es => do let t ← evalDisj qk g env es; pure (triToC t)
   | .xor es => do let t ← evalXor qk g env es; pure (triToC t)
@@ -372,7 +382,7 @@ def evalExpr (qk : Quirks) (g : Graph) (env : Env) (underNot : Bool) : Expr → 
     match s with
     | .null => pure .null
     | .list xs =>
-      let ts ← xs.mapM (fun x => match pred with
+      let ts ← xs.mapE (fun x => match pred with
         | none => pure (some true)
         | some p => do let r ← evalExpr qk g ((v, x) :: env) false p; triOfC r)
       let nTrue := (ts.filter (· == some true)).length
@@ -459,7 +469,7 @@ def matchSteps (qk : Quirks) (g : Graph) (st : MState) (cur : Int) (pathNodes : 
         else hopsFrom g dir cur
       let cands := base.filter (fun p => kindAnyOf p.1.kind rkinds && !st.used.contains p.1.id &&
         !(qk.undirectedNoSelfLoop && dir == .both && (nearBound == farBound) && !farIsNear && p.1.start == p.1.stop))
-      let outs ← cands.mapM (fun p => do
+      let outs ← cands.mapE (fun p => do
         let ok ← propsMatch qk g st.env p.1.props rprops
         if !ok then pure [] else
         let st1 : Option MState :=
@@ -487,7 +497,7 @@ def matchSteps (qk : Quirks) (g : Graph) (st : MState) (cur : Int) (pathNodes : 
             | some eid => (match g.edge? eid with | some e => e.start != e.stop | none => true)
             | none => true))
         else trails
-      let outs ← trails.mapM (fun t => do
+      let outs ← trails.mapE (fun t => do
         -- t = (end node, edge ids in order, node ids visited after `cur`)
         let relsOk ← t.2.1.allM (fun eid => propsMatch qk g st.env (edgeProps g eid) rprops)
         if !relsOk then pure [] else
@@ -510,7 +520,7 @@ def matchPart (qk : Quirks) (g : Graph) (st : MState) : PatternPart → M (List 
       | none => g.nodes.map (·.id)
     let preBound := (first.var.bind (fun v => st.env.lookup v)).isSome
     let copies := if qk.reboundNodePatternIsCrossProduct && preBound && steps.isEmpty then g.nodes.length else 1
-    let outs ← (starts.flatMap (fun id => List.replicate copies id)).mapM (fun id => do
+    let outs ← (starts.flatMap (fun id => List.replicate copies id)).mapE (fun id => do
       match ← matchNode qk g st id first with
       | none => pure []
       | some st1 => do
@@ -556,7 +566,7 @@ def patVars : PatternPart → List String
 def matchParts (qk : Quirks) (g : Graph) : List MState → List PatternPart → M (List MState)
   | sts, [] => .ok sts
   | sts, p :: ps => do
-    let next ← sts.mapM (fun st => matchPart qk g (if qk.noCrossPatternUniq then { st with used := [] } else st) p)
+    let next ← sts.mapE (fun st => matchPart qk g (if qk.noCrossPatternUniq then { st with used := [] } else st) p)
     matchParts qk g next.flatten ps
 
 def truthy (v : CVal) : M Bool :=
@@ -567,9 +577,9 @@ def truthy (v : CVal) : M Bool :=
 
 def evalClause (qk : Quirks) (g : Graph) (first : Bool) (envs : List Env) : Clause → M (List Env)
   | .match optional parts wh => do
-    let outs ← envs.mapM (fun env => do
+    let outs ← envs.mapE (fun env => do
       let sts ← matchParts qk g [⟨env, []⟩] parts
-      let kept ← sts.filterM (fun st => match wh with
+      let kept ← sts.filterE (fun st => match wh with
         | none => pure true
         | some w => do let v ← evalExpr qk g st.env false w; truthy v)
       if kept.isEmpty && optional && !(first && qk.optionalFirstIsMatch) then
@@ -578,7 +588,7 @@ def evalClause (qk : Quirks) (g : Graph) (first : Bool) (envs : List Env) : Clau
       else pure (kept.map (·.env)))
     pure outs.flatten
   | .unwind e v => do
-    let outs ← envs.mapM (fun env => do
+    let outs ← envs.mapE (fun env => do
       match ← evalExpr qk g env false e with
       | .null => pure []
       | .list xs => pure (xs.map (fun x => (v, x) :: env))
@@ -619,7 +629,7 @@ end
 def aggregate (qk : Quirks) (g : Graph) (group : List Env) (name : String) (distinct : Bool) (args : List Expr) : M CVal := do
   match args with
   | [arg] =>
-    let vs ← group.mapM (fun env => evalExpr qk g env false arg)
+    let vs ← group.mapE (fun env => evalExpr qk g env false arg)
     let vs := vs.filter (fun v => match v with | .null => false | _ => true)
     let vs := if distinct then dedupBy cEquiv vs else vs
     match name with
@@ -679,42 +689,57 @@ def sortKeysLe (jsonb : Bool) : List (CVal × Bool) → List (CVal × Bool) → 
     | .gt => !asc
 
 /-- WITH / RETURN: (column names, rows as (output values, environment for the next part)) -/
-def evalProjection (qk : Quirks) (g : Graph) (envs : List Env) (p : Projection) : M (List String × List (List CVal × Env × List CVal)) := do
-  if p.all then .error "return-star" else
-  let names := (List.range p.items.length).zip p.items |>.map (fun x => itemName x.2 x.1)
-  let anyAgg := p.items.any (fun it => hasAggregate it.e)
-  -- (values, new env, old env)
-  let rows : List (List CVal × Env) ←
-    if anyAgg then do
-      let keys := (p.items.filter (fun it => !hasAggregate it.e)).map (·.e)
-      let groups ← groupRows qk g keys envs
-      let groups := if groups.isEmpty && keys.isEmpty then [([], [])] else groups
-      groups.mapM (fun gr => do
-        let vals ← p.items.mapM (fun it => evalItem qk g gr.2 (gr.2.headD []) it.e)
-        pure (vals, names.zip vals))
-    else
-      envs.mapM (fun env => do
-        let vals ← p.items.mapM (fun it => evalExpr qk g env false it.e)
-        pure (vals, names.zip vals ++ env))
-  let rows := if p.distinct then dedupBy (fun a b => rowEquiv a.1 b.1) rows else rows
-  let rows := if p.distinct || anyAgg then rows.map (fun r => (r.1, names.zip r.1)) else rows
-  let keyed : List (List (CVal × Bool) × (List CVal × Env)) ←
-    if p.orderBy.isEmpty then pure (rows.map (fun r => ([], r))) else do
-      let keyed ← rows.mapM (fun r => do
-        let ks ← p.orderBy.mapM (fun k => do let v ← evalExpr qk g r.2 false k.1; pure (v, k.2))
-        pure (ks, r))
-      pure (stableSort (fun a b => sortKeysLe qk.jsonbOrdering a.1 b.1) keyed)
-  let skip ← intOf qk g p.skip
-  let limit ← intOf qk g p.limit
-  -- a SKIP / LIMIT boundary that falls inside a group of rows with equal sort keys picks an arbitrary subset
-  let tieAt (rows : List (List (CVal × Bool) × (List CVal × Env))) (k : Nat) : Bool :=
-    k > 0 && (match rows[k - 1]?, rows[k]? with
-      | some a, some b => a.1.length == b.1.length && (a.1.zip b.1).all (fun p => cEquiv p.1.1 p.2.1)
-      | _, _ => false)
+abbrev KeyedRow := List (CVal × Bool) × (List CVal × Env)
+
+/-- projection without aggregation: one output row per input row; the new environment keeps the old bindings behind the new names -/
+def plainRows (qk : Quirks) (g : Graph) (names : List String) (items : List ProjItem) (envs : List Env) : M (List (List CVal × Env)) :=
+  envs.mapE (fun env => do
+    let vals ← items.mapE (fun it => evalExpr qk g env false it.e)
+    pure (vals, names.zip vals ++ env))
+
+/-- implicit grouping by the non-aggregate items -/
+def groupedRows (qk : Quirks) (g : Graph) (names : List String) (items : List ProjItem) (envs : List Env) : M (List (List CVal × Env)) := do
+  let keys := (items.filter (fun it => !hasAggregate it.e)).map (·.e)
+  let groups ← groupRows qk g keys envs
+  let groups := if groups.isEmpty && keys.isEmpty then [([], [])] else groups
+  groups.mapE (fun gr => do
+    let vals ← items.mapE (fun it => evalItem qk g gr.2 (gr.2.headD []) it.e)
+    pure (vals, names.zip vals))
+
+/-- ORDER BY: key tuples, then a stable sort (no keys: order unchanged) -/
+def keyRows (qk : Quirks) (g : Graph) (orderBy : List (Expr × Bool)) (rows : List (List CVal × Env)) : M (List KeyedRow) := do
+  let keyed ← rows.mapE (fun r => do
+    let ks ← orderBy.mapE (fun k => do let v ← evalExpr qk g r.2 false k.1; pure (v, k.2))
+    pure (ks, r))
+  pure (stableSort (fun a b => sortKeysLe qk.jsonbOrdering a.1 b.1) keyed)
+
+/-- does a cut after `k` rows fall between two rows with equal sort keys? (then the result is an arbitrary subset) -/
+def tieAt (rows : List KeyedRow) (k : Nat) : Bool :=
+  k > 0 && (match rows[k - 1]?, rows[k]? with
+    | some a, some b => a.1.length == b.1.length && (a.1.zip b.1).all (fun p => cEquiv p.1.1 p.2.1)
+    | _, _ => false)
+
+def cutKeyed (skip limit : Option Nat) (keyed : List KeyedRow) : M (List KeyedRow) :=
   if (match skip with | some k => tieAt keyed k | none => false) then .error "nondeterministic-skip-inside-ties" else
   let keyed := match skip with | some k => keyed.drop k | none => keyed
   if (match limit with | some k => tieAt keyed k | none => false) then .error "nondeterministic-limit-inside-ties" else
-  let keyed := match limit with | some k => keyed.take k | none => keyed
+  .ok (match limit with | some k => keyed.take k | none => keyed)
+
+def projNames (items : List ProjItem) : List String :=
+  (List.range items.length).zip items |>.map (fun x => itemName x.2 x.1)
+
+/-- WITH / RETURN: (column names, rows as (output values, environment for the next part, ORDER BY key values)) -/
+def evalProjection (qk : Quirks) (g : Graph) (envs : List Env) (p : Projection) : M (List String × List (List CVal × Env × List CVal)) := do
+  if p.all then .error "return-star" else
+  let names := projNames p.items
+  let anyAgg := p.items.any (fun it => hasAggregate it.e)
+  let rows ← (if anyAgg then groupedRows qk g names p.items envs else plainRows qk g names p.items envs)
+  let rows := if p.distinct then dedupBy (fun a b => rowEquiv a.1 b.1) rows else rows
+  let rows := if p.distinct || anyAgg then rows.map (fun r => (r.1, names.zip r.1)) else rows
+  let keyed ← keyRows qk g p.orderBy rows
+  let skip ← intOf qk g p.skip
+  let limit ← intOf qk g p.limit
+  let keyed ← cutKeyed skip limit keyed
   pure (names, keyed.map (fun kr => (kr.2.1, names.zip kr.2.1, kr.1.map (·.1))))
 
 def evalParts (qk : Quirks) (g : Graph) (first : Bool) : List Env → List Part → M (List Env)
@@ -726,7 +751,7 @@ def evalParts (qk : Quirks) (g : Graph) (first : Bool) : List Env → List Part 
     let next := rows.map (·.2.1)
     let next ← match part.wh with
       | none => pure next
-      | some w => next.filterM (fun env => do let v ← evalExpr qk g env false w; truthy v)
+      | some w => next.filterE (fun env => do let v ← evalExpr qk g env false w; truthy v)
     evalParts qk g false next rest
 
 /-- the rows a query returns on a graph (column names, rows in result order with their ORDER BY key values) -/
